@@ -257,6 +257,117 @@ fn op_seqs(ops: &[Op1], depth: usize) -> Vec<Vec<Op1>> {
   out
 }
 
+/// Two subscriptions of clones of one built pipeline alive at the same time,
+/// the second made in the middle of the history (hot `create` inputs: every
+/// subscription has its own subscriber, all of them get every event): each
+/// sees exactly what the list model gives for the events since *its*
+/// subscription — no gate, counter, buffer or flag is shared between them.
+fn staggered_job(pipe: Pipe, len: usize) -> Job {
+  let n_in = pipe.n_inputs().max(1);
+  Job::new(format!("staggered L{len} {}", pipe.show()), move |ch, obs| {
+    let mut r = Run::prepare(n_in, Form::Local);
+    let op: COp = build_clone(&pipe, &r.cx);
+    let p1 = Probe::new();
+    let _u1 = op.clone().actual_subscribe(p1.clone());
+    let join_at = ch.choose(len + 1);
+    ch.label(|| format!("second subscription before event {join_at}"));
+    let p2 = Probe::new();
+    let mut _u2 = None;
+    let mut tl: Vec<(usize, Note)> = vec![];
+    for k in 0..=len {
+      if k == join_at {
+        _u2 = Some(op.clone().actual_subscribe(p2.clone()));
+      }
+      if k == len {
+        break;
+      }
+      let c = ch.choose(n_in * ALPHA4);
+      let (port, ev) = (c / ALPHA4, alpha4(c % ALPHA4));
+      ch.label(|| format!("in{port} <- {ev:?}"));
+      r.emit(port, &ev);
+      r.drain();
+      tl.push((port, ev));
+      obs.checks += 1;
+      for (who, probe, from) in [("first", &p1, 0usize), ("second", &p2, join_at)] {
+        // (the second one exists only from its subscription on)
+        if from >= tl.len() {
+          continue;
+        }
+        let seen = &tl[from..];
+        let got = probe.seq();
+        let ok = match &pipe {
+          Pipe::O2(op2, ..) => match model::op2(*op2, seen) {
+            Some(exp) => model::exp2_matches(&exp, &got),
+            None => {
+              obs.unspecified += 1;
+              true
+            }
+          },
+          _ => {
+            let hist: Vec<Note> = seen.iter().map(|(_, n)| n.clone()).collect();
+            match model::chain(&pipe, &model::normalize(&hist)) {
+              Some(exp) => exp.notes() == probe.notes(),
+              None => {
+                obs.unspecified += 1;
+                true
+              }
+            }
+          }
+        };
+        if !ok {
+          obs.fail(
+            format!("c13:dependent-concurrent-subscriptions:{}", sig(&pipe)),
+            format!(
+              "{}: events [{}], the second clone subscribed before event {join_at}: the {who} subscription saw [{}], which is not what its own events give",
+              pipe.show(),
+              tl.iter().map(|(p, n)| format!("in{p}<-{n:?}")).collect::<Vec<_>>().join(" "),
+              fmt_notes(&probe.notes())
+            ),
+          );
+        }
+      }
+      if !obs.viol.is_empty() {
+        break;
+      }
+    }
+    obs.delivered = (p1.len() + p2.len()) as u64;
+    obs.note_outcome(&(p1.notes(), p2.notes()));
+  })
+}
+
+/// Building a pipeline does not start any clock either: build, let real time
+/// pass, subscribe and drive it; every timer the pipeline asks for is a whole
+/// number of configured ticks (a duration measured against `Instant::now()` from
+/// the moment of *construction* comes out a few milliseconds short).
+fn build_gap_job(pipe: Pipe) -> Job {
+  Job::new(format!("{} built, 12 ms of real time pass, then subscribed", pipe.show()), move |_ch, obs| {
+    let mut r = Run::prepare(1, Form::Local);
+    let op: COp = build_clone(&pipe, &r.cx);
+    std::thread::sleep(std::time::Duration::from_millis(12));
+    let p = Probe::new();
+    let _u = op.clone().actual_subscribe(p.clone());
+    r.emit(0, &Note::N(V::I(0)));
+    settle(&mut r, true);
+    obs.checks += 1;
+    let tick = crate::world::ticks(1);
+    for req in crate::world::timer_log() {
+      if req.dur.as_nanos() % tick.as_nanos() != 0 {
+        obs.fail(
+          format!("c13:clock-started-at-construction:{}", sig(&pipe)),
+          format!(
+            "{} was built 12 ms before it was subscribed and asked for a timer of {:?}: not a whole number of its configured periods ({tick:?})",
+            pipe.show(),
+            req.dur
+          ),
+        );
+        break;
+      }
+    }
+    obs.delivered = p.len() as u64 + 1;
+    obs.note_outcome(&p.notes());
+  })
+}
+
 pub fn plan(tier: Tier) -> Plan {
   let mut jobs = vec![];
   let full = cloneable_ops(true);
@@ -288,13 +399,32 @@ pub fn plan(tier: Tier) -> Plan {
       }
     }
   }
+  let slen = if tier == Tier::Quick { 4 } else { 5 };
+  for op in list_ops(false).into_iter().filter(|o| !matches!(o, Op1::OnComplete | Op1::OnError | Op1::Tap)) {
+    jobs.push(staggered_job(Pipe::S(Src::Raw(0)).o1(op), slen));
+  }
+  for op2 in Op2::ALL {
+    jobs.push(staggered_job(Pipe::S(Src::Raw(0)).o2(op2, Pipe::S(Src::Raw(1))), slen));
+  }
+  for op in [
+    Op1::Delay(1),
+    Op1::DelaySubscription(1),
+    Op1::Debounce(1),
+    Op1::BufferWithTime(1),
+    Op1::BufferWithCountAndTime(2, 1),
+    Op1::SampleInterval(1),
+    Op1::ObserveOn,
+    Op1::SubscribeOn,
+  ] {
+    jobs.push(build_gap_job(Pipe::hot(0).o1(op)));
+  }
   Plan {
     jobs,
     finish: Finish {
       prop: "C13".into(),
       tier: tier_name(tier),
       engine: "E1 opseq".into(),
-      rule: "every chain up to the depth bound of cloneable catalogue operators (CloneableBoxOp at every stage, so the operators' own Clone impls are what is exercised) over every cold source and every cold script up to the length bound: built only (all closure / iterator / tap counters must still be 0), then clones 1, 2, 3 subscribed one after the other, then a clone subscribed from inside a callback of another; all traces identical and equal to the list model, counters advance by the same amount per subscription, source closures exactly once; non-trivial = something was delivered".into(),
+      rule: "every chain up to the depth bound of cloneable catalogue operators (CloneableBoxOp at every stage, so the operators' own Clone impls are what is exercised) over every cold source and every cold script up to the length bound: built only (all closure / iterator / tap counters must still be 0), then clones 1, 2, 3 subscribed one after the other, then a clone subscribed from inside a callback of another; all traces identical and equal to the list model, counters advance by the same amount per subscription, source closures exactly once; two clones subscribed at different points of one hot history each see what their own events give; a pipeline built 12 ms before it is subscribed asks only for whole periods (no clock starts at construction); non-trivial = something was delivered".into(),
       bounds: json!(bounds),
       assumptions: vec!["share() is shared by design and not part of the independence clause".into()],
     },
